@@ -110,6 +110,10 @@ def h1(
 
     weights = extract_weights(weights, array_mask=array_mask)
 
+    if adaptive and array is not None and array.size == 0:
+        # Nothing to adapt the bins to (yet): same as no data
+        array, weights = None, None
+
     binning = calculate_1d_bins(
         array,
         bins,
@@ -233,6 +237,10 @@ def h(
     dim, array, array_mask = extract_nd_array(data, dim=dim, dropna=dropna)
 
     weights = extract_weights(weights, array_mask=array_mask)
+
+    if adaptive and array is not None and array.shape[0] == 0:
+        # Nothing to adapt the bins to (yet): same as no data
+        array, weights = None, None
 
     bin_schemas = calculate_nd_bins(
         array, bins, dim=dim, check_nan=check_nan, adaptive=adaptive, **kwargs
